@@ -420,28 +420,42 @@ package stun
 // "encoded size fits STUN's 16-bit length field"; Add has no error return for unrepresentable sizes).
 //@ define Fits(m, vl) = 0 <= vl && vl <= 65535 && m.Length + 4 + pad4(vl) <= 65535
 
+// Appended(m, t, val): exactly one attribute (t, len(val), bytes of val) was appended after the old body;
+// everything before it is untouched except the header length; padding is zero; the struct mirrors the bytes.
+//@ define Appended(m, t, val) = m.Length == old(m.Length) + 4 + pad4(len(val)) && len(m.Raw) == 20 + m.Length
+//@   | && (region(m.Raw) == old(region(m.Raw)) || fresh(m.Raw))
+//@   | && (region(m.Raw) == old(region(m.Raw)) ==> off(m.Raw) == old(off(m.Raw)))
+//@   | && be16(m.Raw, 2) == m.Length
+//@   | && forall(i, 0, 20 + old(m.Length), i == 2 || i == 3 || m.Raw[i] == old(m.Raw[i]))
+//@   | && be16(m.Raw, 20 + old(m.Length)) == t && be16(m.Raw, 20 + old(m.Length) + 2) == len(val)
+//@   | && forall(j, 0, len(val), m.Raw[20 + old(m.Length) + 4 + j] == old(val[j]))
+//@   | && forall(j, len(val), pad4(len(val)), m.Raw[20 + old(m.Length) + 4 + j] == 0)
+//@   | && len(m.Attributes) == old(len(m.Attributes)) + 1
+//@   | && (region(m.Attributes) == old(region(m.Attributes)) || fresh(m.Attributes))
+//@   | && forall(k, 0, old(len(m.Attributes)), m.Attributes[k] == old(m.Attributes[k]))
+//@   | && m.Attributes[old(len(m.Attributes))].Type == t && m.Attributes[old(len(m.Attributes))].Length == len(val)
+//@   | && len(m.Attributes[old(len(m.Attributes))].Value) == len(val)
+//@   | && forall(j, 0, len(val), m.Attributes[old(len(m.Attributes))].Value[j] == old(val[j]))
+//@   | && (region(m.Attributes[old(len(m.Attributes))].Value) == region(m.Raw) ==> off(m.Attributes[old(len(m.Attributes))].Value) == off(m.Raw) + 20 + old(m.Length) + 4)
+//@   | && m.Type.Method == old(m.Type.Method) && m.Type.Class == old(m.Type.Class) && forall(j, 0, 12, m.TransactionID[j] == old(m.TransactionID[j]))
+
+// Unchanged(m): raw bytes, length and attribute list exactly as before the call (C09 atomic failure).
+//@ define Unchanged(m) = m.Length == old(m.Length) && sameslice(m.Raw, old(m.Raw)) && sameslice(m.Attributes, old(m.Attributes))
+//@   | && forall(i, 0, len(m.Raw), m.Raw[i] == old(m.Raw[i]))
+//@   | && forall(k, 0, len(m.Attributes), m.Attributes[k] == old(m.Attributes[k]))
+
+// CanAdd(m, val): Add's precondition: consistent length, representable sizes, and val does not overlap the
+// area being written (it may be elsewhere in the buffer, or exactly at its destination as in re-encoding).
+//@ define CanAdd(m, val) = m != nil && len(m.Raw) >= 20 + m.Length && Fits(m, len(val))
+//@   | && (region(val) != region(m.Raw) || off(val) + len(val) <= off(m.Raw) + 20 + m.Length || off(val) == off(m.Raw) + 20 + m.Length + 4)
+
 //@ func (*Message).Add
 //@   safety C03 C08 C09
 //@   props C03 C08 C09 C06 C04 C05
-//@   requires m != nil && len(m.Raw) >= 20 + m.Length && Fits(m, len(val))
-//@   requires region(val) != region(m.Raw) || off(val) + len(val) <= off(m.Raw) + 20 + m.Length || off(val) == off(m.Raw) + 20 + m.Length + 4
+//@   requires CanAdd(m, val)
 //@   assigns m.Raw, m.Length, m.Attributes, mem(m.Raw), mem(m.Attributes)
 //@   allocates
-//@   ensures m.Length == old(m.Length) + 4 + pad4(len(val)) && len(m.Raw) == 20 + m.Length
-//@   ensures region(m.Raw) == old(region(m.Raw)) || fresh(m.Raw)
-//@   ensures region(m.Raw) == old(region(m.Raw)) ==> off(m.Raw) == old(off(m.Raw))
-//@   ensures be16(m.Raw, 2) == m.Length
-//@   ensures forall(i, 0, 20 + old(m.Length), i == 2 || i == 3 || m.Raw[i] == old(m.Raw[i]))
-//@   ensures be16(m.Raw, 20 + old(m.Length)) == attrType && be16(m.Raw, 20 + old(m.Length) + 2) == len(val)
-//@   ensures forall(j, 0, len(val), m.Raw[20 + old(m.Length) + 4 + j] == old(val[j]))
-//@   ensures forall(j, len(val), pad4(len(val)), m.Raw[20 + old(m.Length) + 4 + j] == 0)
-//@   ensures len(m.Attributes) == old(len(m.Attributes)) + 1
-//@   ensures region(m.Attributes) == old(region(m.Attributes)) || fresh(m.Attributes)
-//@   ensures forall(k, 0, old(len(m.Attributes)), m.Attributes[k] == old(m.Attributes[k]))
-//@   ensures m.Attributes[old(len(m.Attributes))].Type == attrType && m.Attributes[old(len(m.Attributes))].Length == len(val)
-//@   ensures len(m.Attributes[old(len(m.Attributes))].Value) == len(val)
-//@   ensures forall(j, 0, len(val), m.Attributes[old(len(m.Attributes))].Value[j] == old(val[j]))
-//@   ensures region(m.Attributes[old(len(m.Attributes))].Value) == region(m.Raw) ==> off(m.Attributes[old(len(m.Attributes))].Value) == off(m.Raw) + 20 + old(m.Length) + 4
+//@   ensures Appended(m, attrType, val)
 //@   loop 0
 //@     assigns buf[0:len(buf)]
 //@     invariant -1 <= rangeindex && forall(j, 0, rangeindex+1, buf[j] == 0)
@@ -449,3 +463,112 @@ package stun
 
 //@ func AttrType.Value
 //@   transparent
+
+//@ func (*Message).WriteType
+//@   transparent
+
+//@ define TypeOK(m) = m.Type.Method < 4096 && m.Type.Class < 4
+
+// Built(m): the header is complete and consistent with the struct and the buffer length.
+//@ define Built(m) = len(m.Raw) == 20 + m.Length && m.Length % 4 == 0 && m.Length <= 65535
+//@   | && be16(m.Raw, 2) == m.Length && be32(m.Raw, 4) == 0x2112A442
+//@   | && be16(m.Raw, 0) == mtype(m.Type.Method, m.Type.Class) && TypeOK(m)
+//@   | && forall(j, 0, 12, m.Raw[8+j] == m.TransactionID[j])
+
+//@ func (*Message).Reset
+//@   safety C03 C08
+//@   props C03 C08 C09
+//@   requires m != nil
+//@   assigns m.Raw, m.Length, m.Attributes
+//@   ensures len(m.Raw) == 0 && m.Length == 0 && len(m.Attributes) == 0
+//@   ensures region(m.Raw) == old(region(m.Raw)) && off(m.Raw) == old(off(m.Raw)) && cap(m.Raw) == old(cap(m.Raw))
+//@   ensures region(m.Attributes) == old(region(m.Attributes)) && off(m.Attributes) == old(off(m.Attributes)) && cap(m.Attributes) == old(cap(m.Attributes))
+
+//@ func (*Message).WriteHeader
+//@   safety C03 C08
+//@   props C03 C08 C09
+//@   requires m != nil && TypeOK(m)
+//@   assigns m.Raw, mem(m.Raw)
+//@   allocates
+//@   ensures len(m.Raw) == max(old(len(m.Raw)), 20)
+//@   ensures region(m.Raw) == old(region(m.Raw)) || fresh(m.Raw)
+//@   ensures be16(m.Raw, 0) == mtype(m.Type.Method, m.Type.Class) && be16(m.Raw, 2) == m.Length % 65536 && be32(m.Raw, 4) == 0x2112A442
+//@   ensures forall(j, 0, 12, m.Raw[8+j] == m.TransactionID[j])
+//@   ensures forall(i, 20, old(len(m.Raw)), m.Raw[i] == old(m.Raw[i]))
+
+//@ func (*Message).SetType
+//@   safety C03
+//@   props C03
+//@   requires m != nil && t.Method < 4096 && t.Class < 4
+//@   assigns m.Type, m.Raw, mem(m.Raw)
+//@   allocates
+//@   ensures m.Type.Method == t.Method && m.Type.Class == t.Class
+//@   ensures len(m.Raw) == max(old(len(m.Raw)), 2) && (region(m.Raw) == old(region(m.Raw)) || fresh(m.Raw))
+//@   ensures be16(m.Raw, 0) == mtype(t.Method, t.Class)
+//@   ensures forall(i, 2, old(len(m.Raw)), m.Raw[i] == old(m.Raw[i]))
+
+//@ func (*Message).WriteTransactionID
+//@   safety C03
+//@   props C03
+//@   requires m != nil && cap(m.Raw) >= 20
+//@   assigns m.Raw[8:20]
+//@   ensures forall(j, 0, 12, m.Raw[8+j] == m.TransactionID[j])
+
+//@ func (*Message).AddTo
+//@   safety C03
+//@   props C03
+//@   requires m != nil && b != nil && cap(b.Raw) >= 20
+//@   assigns b.TransactionID, b.Raw[8:20]
+//@   ensures result == nil && forall(j, 0, 12, b.Raw[8+j] == old(m.TransactionID[j]) && b.TransactionID[j] == old(m.TransactionID[j]))
+
+//@ func transactionIDValueSetter.AddTo
+//@   safety C03
+//@   props C03
+//@   requires m != nil && cap(m.Raw) >= 20
+//@   assigns m.TransactionID, m.Raw[8:20]
+//@   ensures result == nil && forall(j, 0, 12, m.Raw[8+j] == t[j] && m.TransactionID[j] == t[j])
+
+//@ func MessageType.AddTo
+//@   safety C03
+//@   props C03
+//@   requires m != nil && t.Method < 4096 && t.Class < 4
+//@   assigns m.Type, m.Raw, mem(m.Raw)
+//@   allocates
+//@   ensures result == nil && m.Type.Method == t.Method && m.Type.Class == t.Class && be16(m.Raw, 0) == mtype(t.Method, t.Class)
+//@   ensures len(m.Raw) == max(old(len(m.Raw)), 2) && forall(i, 2, old(len(m.Raw)), m.Raw[i] == old(m.Raw[i]))
+
+//@ func RawAttribute.AddTo
+//@   safety C03
+//@   props C03
+//@   requires CanAdd(m, a.Value)
+//@   assigns m.Raw, m.Length, m.Attributes, mem(m.Raw), mem(m.Attributes)
+//@   allocates
+//@   ensures result == nil && Appended(m, a.Type, a.Value)
+
+// Interface contract of Setter (assumed for user setters; the library setters below are each proved against
+// their own, stronger contracts, under the size precondition Fits that the property states).
+// Ghost: setter_failed records that some setter already returned an error (Build must not call another one).
+//@ func Setter.AddTo(s, m)
+//@   requires m != nil && Built(m) && ghost(setter_failed) == 0
+//@   assigns *m, mem(m.Raw), mem(m.Attributes), ghost(setter_failed), ghost(setter_err_tag), ghost(setter_err_val)
+//@   allocates
+//@   ensures Built(m)
+//@   ensures (region(m.Raw) == old(region(m.Raw)) || fresh(m.Raw)) && (region(m.Attributes) == old(region(m.Attributes)) || fresh(m.Attributes))
+//@   ensures result == nil ==> ghost(setter_failed) == 0
+//@   ensures result != nil ==> ghost(setter_failed) == 1 && ghost(setter_err_tag) == errtag(result) && ghost(setter_err_val) == errval(result)
+
+//@ func (*Message).Build
+//@   safety C03 C09
+//@   props C03 C09
+//@   requires m != nil && TypeOK(m) && ghost(setter_failed) == 0
+//@   requires forall(i, 0, len(setters), setters[i] != nil)
+//@   assigns *m, mem(m.Raw), mem(m.Attributes), ghost(setter_failed), ghost(setter_err_tag), ghost(setter_err_val)
+//@   allocates
+//@   ensures Built(m)
+//@   ensures result == nil <==> ghost(setter_failed) == 0
+//@   ensures result != nil ==> ghost(setter_err_tag) == errtag(result) && ghost(setter_err_val) == errval(result)
+//@   loop 0
+//@     assigns *m, mem(m.Raw), mem(m.Attributes), ghost(setter_failed), ghost(setter_err_tag), ghost(setter_err_val)
+//@     invariant -1 <= rangeindex && Built(m) && ghost(setter_failed) == 0
+//@     invariant (region(m.Raw) == loopold(region(m.Raw)) || loopfresh(m.Raw)) && (region(m.Attributes) == loopold(region(m.Attributes)) || loopfresh(m.Attributes))
+//@     decreases len(setters) - rangeindex
